@@ -159,8 +159,10 @@ var Int = NewScalar(ScalarConfig{
 	ParseLiteral: func(valueAST ast.Value) interface{} {
 		switch valueAST := valueAST.(type) {
 		case *ast.IntValue:
-			if intValue, err := strconv.Atoi(valueAST.Value); err == nil {
-				return intValue
+			// Int is a 32-bit type: a literal outside that range is not an Int
+			// (the same value supplied through a variable is rejected too).
+			if intValue, err := strconv.ParseInt(valueAST.Value, 10, 32); err == nil {
+				return int(intValue)
 			}
 		}
 		return nil
